@@ -122,6 +122,11 @@ func runC19Case(c *fw.Ctx, id string, cs c19Case) {
 		cl.DialDelay = func(addr string, n int) time.Duration {
 			if once() {
 				fire()
+				if cs.Seed%2 == 0 {
+					// a dial that would take far longer than everything below waits for:
+					// Close has to interrupt it (the dialer honours its context)
+					return 1500 * time.Millisecond
+				}
 				return 150 * time.Millisecond
 			}
 			return 0
